@@ -135,11 +135,13 @@ class add_callbacks:
 
     def __init__(self, *callbacks):
         self.callbacks = [normalize_callback(c) for c in callbacks]
+        # Only deactivate on exit what this context newly activated
+        self._added = [c for c in self.callbacks if c not in Callback.active]
         Callback.active.update(self.callbacks)
 
     def __enter__(self):
         return
 
     def __exit__(self, type, value, traceback):
-        for c in self.callbacks:
+        for c in self._added:
             Callback.active.discard(c)
